@@ -910,6 +910,8 @@ def variants():
         Variant("e-cap-off-by-one", "bad", replace_expr(core, "SamplerCore.__init__", "config.n_max_clusters - 1", "config.n_max_clusters"), ["C14.e"], quick=True),
         Variant("h-adapt-by-rank", "bad", edit("tempest/mcmc.py", "BaseMCMCRunner.run", _adapt_by_rank), ["C14.h"], quick=True),
         Variant("h-benign-enumerate-modes", "benign", edit("tempest/mcmc.py", "BaseMCMCRunner.run", _adapt_enum_modes)),
+        Variant("i-rebind-one-step-only", "bad", insert_before("tempest/core.py", "SamplerCore.save_sampler_state", "d = self.state.to_dict()", "self.trainer.clusterer = self.trainer.clusterer"), ["C14.i"], quick=True),
+        Variant("i-benign-rebind-both", "benign", insert_before("tempest/core.py", "SamplerCore.save_sampler_state", "d = self.state.to_dict()", "shared = self.trainer.clusterer\nself.trainer.clusterer = shared\nself.resampler.clusterer = shared")),
         Variant("g-carry-over-skips-labels", "bad", insert_before("tempest/steps/resample.py", "Resampler.run", "u = self.state.get_history('u', flat=True)", "if self.state.get_current('u') is not None and beta == self.state.get_last_history('beta'):\n    return"), ["C14.g"], quick=True),
         Variant("c-clip-means-after-fit", "bad", insert_before(tr, "Trainer.run", "return mode_stats", "mode_stats.means = np.clip(mode_stats.means, 1e-4, 1 - 1e-4)"), ["C14.c"], quick=True),
         Variant("benign-rename-refit", "benign", alpha_rename(tr, "Trainer.run", "refit", "do_fit"), quick=True),
